@@ -22,14 +22,15 @@ TRUSTED = [
     "shutil.rmtree deletes the whole crop directory or raises",
 ]
 RULE = ("farmer kind in {none, Runner, Harvester, Sampler} x clean_up in {None, True, False} x allow_incomplete x wait "
-        "x injected failure in {none, incomplete crop, unreadable result, wrong var_names, surplus results, merge "
+        "x injected failure in {none, incomplete crop, unreadable result (second batch / the one listed last), wrong var_names, surplus results, merge "
         "conflict, save error} x result type in {number, bare bool, bare str} (plain and Runner crops); after a failure the crop directory is compared byte for byte and a corrected retry "
         "must deliver the exact data; distinct = distinct combinations; non-trivial = all (each has >= 2 batches)")
 
 KINDS = ["none", "Runner", "Harvester", "Sampler"]
 COQ_KIND = {"none": "FNone", "Runner": "FRunner", "Harvester": "FHarvester", "Sampler": "FSampler"}
 FAILS = {  # name -> (model tag, kinds it applies to)
-    "incomplete": (1, KINDS), "unreadable-result": (3, KINDS), "wrong-var-names": (4, ["Runner", "Harvester"]),
+    "incomplete": (1, KINDS), "unreadable-result": (3, KINDS), "unreadable-result-listed-last": (3, KINDS),
+    "wrong-var-names": (4, ["Runner", "Harvester"]),
     "surplus-results": (5, KINDS), "merge-conflict": (6, ["Harvester"]), "save-error": (6, ["Harvester", "Sampler"]),
 }
 
@@ -105,8 +106,13 @@ class Scenario:
         c.grow_missing(verbosity=0)
         if fail is None:
             return lambda: None
-        if fail == "unreadable-result":
+        if fail in ("unreadable-result", "unreadable-result-listed-last"):
             p = self.res(2)
+            if fail.endswith("listed-last"):
+                # the result file that a directory listing names LAST (a partial reap looks at the first listed
+                # result to build its placeholder; the damaged one must still be noticed)
+                import glob
+                p = glob.glob(os.path.join(c.location, "results", "xyz-result-*.jbdmp"))[-1]
             data = open(p, "rb").read()
             open(p, "wb").write(data[:len(data) // 2])
 
